@@ -277,6 +277,27 @@ def expand(template_path, defines=None, _seen=None):
             items.extend(its)
             i += 1
             continue
+        mc = re.match(r"^//@corollary\s+(\w+)\s*((?:\s*\w+=\S+)*)\s*$", ln)
+        if mc:
+            # a verus-only function whose verification is itself an obligation of the listed properties
+            # (e.g. "checked and unchecked variants agree", proved from the contracts alone)
+            o = dict(kv.split("=", 1) for kv in mc.group(2).split())
+            j = i + 1
+            while j < len(lines) and lines[j].strip() != "//@end":
+                j += 1
+            if j >= len(lines):
+                raise Inconclusive("%s:%d: //@corollary without //@end" % (template_path, i + 1))
+            text = "\n".join(lines[i + 1:j])
+            first = sum(x.count("\n") for x in out) + len(out) + 1
+            out.append(text)
+            items.append({"file": os.path.relpath(template_path, VERIF), "item": "corollary fn " + mc.group(1),
+                          "repo_lines": [i + 2, j], "sha256": hashlib.sha256(text.encode()).hexdigest()[:16],
+                          "tokens": 0, "hunks": [], "renamed_tokens": 0, "differs_from_template": False,
+                          "props": o.get("props", "").split(",") if o.get("props") else [],
+                          "template": os.path.relpath(template_path, VERIF) + ":%d" % (i + 1), "kind": "corollary",
+                          "out_lines": [first, first + text.count("\n")]})
+            i = j + 1
+            continue
         m = _ITEM.match(ln)
         if m:
             relpath, path, opts = m.group(1), m.group(2), m.group(3)
